@@ -288,12 +288,18 @@ Fixpoint replay (s : st) (w : bool) (u : N) (d : dict) : st :=
       replay s1 w u r
   end.
 
+(* a new survey entity: created, registered, saved — saving reads the metadata, which creates and stores the class default *)
+Definition spawn (s : st) (e : ent) (tw : bool) (n : nat) : ent * st :=
+  let '(c, s1) := new_ent s e tw n in
+  let s2 := add_ent s1 c in
+  let '(l, s3) := em_md s2 c in
+  (with_md c (Some l), s3).
+
 Definition em_copy (s : st) (e : ent) (tw : bool) (mask : option (list bool)) : res (st * N) :=
   match masked_nv e mask with
   | Err x => Err x
   | Ok n =>
-      let '(c, s1) := new_ent s e tw n in
-      let s2 := add_ent s1 c in
+      let '(c, s2) := spawn s e tw n in
       let '(l, s3) := em_md s2 (refresh s2 e) in
       let s4 := replay s3 tw (uid c) (hget l (heap s3)) in
       let '(p, s5) := partner s4 (refresh s4 e) in
@@ -302,11 +308,10 @@ Definition em_copy (s : st) (e : ent) (tw : bool) (mask : option (list bool)) : 
       | Some q =>
           if is_large (fam e) then
             if ids e && ids q then
-              let '(c2, s6) := new_ent s5 q tw (nv q) in
-              let s7 := add_ent s6 c2 in
+              let '(c2, s7) := spawn s5 q tw (nv q) in
               (* receivers of the pair carry "Tx ID property" = their own data child *)
               let s8 := match rol c with RA => em_edit s7 (refresh s7 c) KT VOwn | RB => s7 end in
-              let s9 := em_link s8 (refresh s8 c) c2 in
+              let s9 := em_link s8 (refresh s8 c) (refresh s8 c2) in
               let s10 := match rol c2 with RA => em_edit s9 (refresh s9 c2) KT VOwn | RB => s9 end in
               Ok (s10, uid c)
             else Ok (match rol c, ids e with RA, true => em_edit s5 (refresh s5 c) KT VOwn | _, _ => s5 end, uid c)
@@ -314,8 +319,7 @@ Definition em_copy (s : st) (e : ent) (tw : bool) (mask : option (list bool)) : 
             match masked_nv q mask with
             | Err x => Err x
             | Ok n2 =>
-                let '(c2, s6) := new_ent s5 q tw n2 in
-                let s7 := add_ent s6 c2 in
+                let '(c2, s7) := spawn s5 q tw n2 in
                 Ok (em_link s7 (refresh s7 c) c2, uid c)
             end
       end
